@@ -194,15 +194,17 @@ class Report:
             if shrink_fn is not None:
                 try:
                     sh = shrink_fn(b, w)
-                    if sh is None and kind == "config" and "sequence" in e["alts"]:
-                        # the single config does not reproduce alone: use the ordered sequence that does
-                        w, detail = e["alts"]["sequence"]
-                        kind = "sequence"
-                        sh = shrink_fn(b, w)
+                    for alt in ("sequence", "cfg-sequence", "item-sequence"):
+                        if sh is None and kind == "config" and alt in e["alts"]:
+                            # the single config does not reproduce alone: use the ordered sequence that does
+                            w, detail = e["alts"][alt]
+                            kind = alt
+                            sh = shrink_fn(b, w)
                     if sh is not None:
                         w, detail = sh
-                        kind = "sequence" if isinstance(w, dict) and "sequence" in w else ("config" if isinstance(w, dict) and "cls" in w else kind)
-                    elif kind != "sequence":
+                        kind = "sequence" if isinstance(w, dict) and "sequence" in w else "cfg-sequence" if isinstance(w, dict) and "cfgs" in w else "item-sequence" if isinstance(w, dict) and "items" in w else (
+                            "config" if isinstance(w, dict) and "cls" in w else kind)
+                    elif kind not in ("sequence", "cfg-sequence", "item-sequence"):
                         detail = detail + " [witness not minimised: not reproducible in isolation or no shrinker - if the replay passes, the violation depends on what ran before in the same process]"
                 except Exception:
                     sys.stderr.write("shrinker failed (witness kept unshrunk):\n" + traceback.format_exc())
@@ -212,6 +214,8 @@ class Report:
             print("  bucket=%s cases=%d" % ("/".join(map(str, b)), e["count"]))
             if isinstance(w, dict) and "sequence" in w and all(isinstance(c, dict) and "cls" in c for c in w["sequence"]):
                 wtxt = "in one process: " + " ; then ".join(C.describe(c) for c in w["sequence"])
+            elif isinstance(w, dict) and "cfgs" in w:
+                wtxt = "in one process: " + " ; then ".join(C.describe(c) for c in w["cfgs"])
             elif e["kind"] == "config" and isinstance(w, dict) and "cls" in w:
                 wtxt = C.describe(w)
             else:
